@@ -160,13 +160,16 @@ META.update({
              'per-path lockset check, any number of threads and any schedule: no two threads are ever about to perform conflicting '
              'accesses, and some thread can always move. Per run, harness/cmd/xlate re-translates container.go / web_service.go / '
              'curly.go / jsr311.go into coq/gen/Generated_Locks.v and genprops/C12_generated.v re-proves lockset_ok of THAT table '
-             '(generated_lockset_ok, generated_race_free). On the unrepaired tree this theorem failed with the offenders curly.go:49 '
+             '(generated_lockset_ok, generated_race_free, generated_selection_is_one_section: the request paths read the service list and the route slices inside ONE read-locked section, which is the step structure C12_linearisation assumes). On the unrepaired tree this theorem failed with the offenders curly.go:49 '
              'and container.go:316/141; the race detector and the stress run reproduced races, wrong answers and panics (fixed: F2, '
              'F3). Theorem C12_frame (both routers): the routing answer depends on the registration state only through the ordered roots and '
-             'the routes of the one service claiming the URL, so changes to other services cannot alter it. PARTIAL: "answered by a '
-             'state that existed during the request" rests on the lock table (selection reads under the read lock) and the stress '
-             'classification, not on a theorem about interleavings of the behavioural model; the translator, Go\'s memory '
-             'model and sync.RWMutex are trusted.',
+             'the routes of the one service claiming the URL, so changes to other services cannot alter it. Theorem C12_linearisation '
+             '(model/Linear.v: requests = RLock; read the service list; find the claiming service and read its routes; RUnlock, '
+             'interleaved step by step under ANY schedule with mutators doing Add/Remove under the write lock and Route/RemoveRoute '
+             'without it): a finished request\'s answer is SelectRoute\'s answer in the global registration state at its own '
+             'routes-read step, both routers; C12_exclusion: no snapshot is held while a writer holds the lock. PARTIAL: that the '
+             'code has this step structure is tied by the translated lock table (reads of webServices under RLock, writes under '
+             'Lock) and the stress classification; the translator, Go\'s memory model and sync.RWMutex are trusted.',
         design_ref='DESIGN.md section 6, C12',
         note='trusted: Coq kernel, translator cmd/xlate (fails closed), Go race detector, harness; lock semantics as written in Model.Conc',
         technique='Coq theorem over translated lock/access table (regenerated from source each run) + race-detector stress'),
